@@ -69,7 +69,7 @@ def operand_ok(spec, kind, reg, d, width_ctx, fam):
 
 SPECIAL = {"Call_rel32_64": ["rel32"], "Retnq": [], "Cdqe": [], "Cqo": [], "Cdq": [], "Cld": [], "Nopw": [], "Nopd": [],
            "Nopq": [], "Endbr64": [], "Push_r64": ["r64"], "Pop_r64": ["r64"], "Lea_r64_m": ["r64", "m"], "Lea_r32_m": ["r32", "m"],
-           "Lea_r16_m": ["r16", "m"], "Cwd": [],
+           "Lea_r16_m": ["r16", "m"], "Cwd": [], "Cpuid": [],
            "Mov_RAX_moffs64": ["RAX", "m"], "Mov_EAX_moffs32": ["EAX", "m"], "Mov_AX_moffs16": ["AX", "m"], "Mov_AL_moffs8": ["AL", "m"],
            "Mov_moffs64_RAX": ["m", "RAX"], "Mov_moffs32_EAX": ["m", "EAX"], "Mov_moffs16_AX": ["m", "AX"], "Mov_moffs8_AL": ["m", "AL"],
            "Xorps_xmm_xmmm128": ["xmm", "xmmm128"], "Movups_xmm_xmmm128": ["xmm", "xmmm128"], "Movups_xmmm128_xmm": ["xmmm128", "xmm"],
